@@ -10,6 +10,8 @@ Both rewrites are semantics preserving for the subjects accepted (names and
 attribute chains: evaluating them repeatedly has no effect)."""
 from __future__ import annotations
 
+from sa.model import clone as _clone
+
 import ast
 import copy
 
@@ -82,7 +84,7 @@ class DispatchNormaliser(ast.NodeTransformer):
                     cases.append(ast.match_case(
                         pattern=ast.MatchAs(pattern=None, name=None),
                         guard=None, body=default))
-                new = ast.Match(subject=copy.deepcopy(first[0]), cases=cases)
+                new = ast.Match(subject=_clone(first[0]), cases=cases)
                 ast.copy_location(new, node)
                 for c in cases:
                     for n in ast.walk(c.pattern):
@@ -132,7 +134,7 @@ class DispatchNormaliser(ast.NodeTransformer):
         for cl, body in reversed(arms):
             typ = cl[0] if len(cl) == 1 else ast.Tuple(elts=cl, ctx=ast.Load())
             test = ast.Call(func=ast.Name(id="isinstance", ctx=ast.Load()),
-                            args=[copy.deepcopy(node.subject), typ],
+                            args=[_clone(node.subject), typ],
                             keywords=[])
             new = ast.If(test=test, body=body, orelse=chain)
             ast.copy_location(new, node)
